@@ -81,8 +81,14 @@ def r1(run: Run, src, g, em, cg):
         conds_ok = []
         for r in rets:
             if r.value is not None and not (isinstance(r.value, ast.Constant) and r.value.value is None):
-                pc = path_conditions(gc.node, r, parent_map(gc.node))
-                conds_ok.append(any(' in self._cell_translations' in ast.unparse(t) and pol for t, pol in pc))
+                from .common import flat_conditions
+                pc = flat_conditions(path_conditions(gc.node, r, parent_map(gc.node)))
+
+                def registered(t, pol):
+                    if not (isinstance(t, ast.Compare) and len(t.ops) == 1 and '_cell_translations' in ast.unparse(t.comparators[0])):
+                        return False
+                    return (isinstance(t.ops[0], ast.In) and pol) or (isinstance(t.ops[0], ast.NotIn) and not pol)
+                conds_ok.append(any(registered(t, pol) for t, pol in pc))
         ok = bool(conds_ok) and all(conds_ok)
     run.check(ok, 'C03.R1', 'Context.get_cell/registered-only', 'reference-to-unregistered-cell',
               'Context.get_cell can return a reference for a cell that has no translation: the generated class would reference a '
@@ -97,10 +103,19 @@ def r1(run: Run, src, g, em, cg):
     ss = ctx.methods.get('set_sub_cell')
     parents = parent_map(ss.node)
     rets = [n for n in ast.walk(ss.node) if isinstance(n, ast.Return)]
+    # locals that hold the per-cell list of sub-expressions (setdefault / get / subscript of the table)
+    aliases = set()
+    for st in ast.walk(ss.node):
+        if isinstance(st, ast.Assign) and '_sub_cell_translations' in ast.unparse(st.value) and \
+                not isinstance(st.value, (ast.List, ast.Dict)):
+            aliases |= {t.id for t in st.targets if isinstance(t, ast.Name)}
+
+    def is_list(e):
+        return '_sub_cell_translations' in ast.unparse(e) or (isinstance(e, ast.Name) and e.id in aliases)
     apps = [n for n in ast.walk(ss.node) if isinstance(n, ast.Call) and isinstance(n.func, ast.Attribute) and n.func.attr == 'append'
-            and '_sub_cell_translations' in ast.unparse(n.func.value)]
+            and is_list(n.func.value)]
     idx = [n for n in ast.walk(ss.node) if isinstance(n, ast.Call) and isinstance(n.func, ast.Attribute) and n.func.attr == 'index'
-           and '_sub_cell_translations' in ast.unparse(n.func.value)]
+           and is_list(n.func.value)]
     run.check(len(apps) == 1 and len(rets) == 1 and apps[0].lineno < rets[0].lineno and len(idx) == 1, 'C03.R1',
               'Context.set_sub_cell/registers-first', 'sub-cell-not-registered',
               'set_sub_cell does not store the code (or find the identical stored code) before handing out its reference',
@@ -321,7 +336,8 @@ def r3(run: Run, src, cg):
 
 
 def r4(run: Run, src):
-    fi = src.func('Parser._translate')
+    from .common import inlined_function
+    fi = inlined_function(src, 'Parser._translate')
     ifs = [n for n in ast.walk(fi.node) if isinstance(n, ast.If) and ast.unparse(n.test) == 'self._entrypoint_cell']
     ok = False
     if len(ifs) == 1:
